@@ -18,7 +18,8 @@ RULE = ("Route tables of 1-4 routes built from segment templates (literals 'a','
         "placeholders, two placeholders in one segment) in random order; paths generated from the tables (valid instances of each placeholder "
         "language, one-edit near misses, extra/missing segments, trailing newline, empty path, Unicode digits, upper-case uuid, impossible dates, "
         "'007', '1.', '.5', 400-digit ints) plus a fixed adversarial segment alphabet. Every (table, path) pair is dispatched through the real "
-        "Router.__call__ on WSGI and on ASGI. Non-trivial = pair where >=2 routes are in the table and the path matches or nearly matches a "
+        "Router.__call__ on WSGI and on ASGI; one Router object per table serves all its paths, in one order and then reversed, with empty and non-empty root paths "
+        "(including a root path equal to the first path segment). Non-trivial = pair where >=2 routes are in the table and the path matches or nearly matches a "
         "typed route; distinct = (table, path).")
 ASSUMPTIONS = [
     "when a path binds to a route in more than one way (e.g. '{x}-{y:int}') only route choice is compared, not parameter values",
@@ -113,41 +114,49 @@ class Recorder:
         self.hit = None
 
 
-def dispatch_wsgi(routes, path, stale=False):
-    from baize import wsgi
-    rec = Recorder()
+class Table:
+    """one Router object per interface, built once and reused for every path of the table (a router is long-lived)"""
 
-    def endpoint(i):
-        def app(environ, start_response):
-            rec.hit = (i, environ.get("PATH_PARAMS"), wsgi.Request(environ).path_params)
-            start_response("200 OK", [("X-Route", str(i))])
-            return [b"ok"]
-        return app
-    router = wsgi.Router(*[(r, endpoint(i)) for i, r in enumerate(routes)])
-    req = drivers.Req(path=path.encode("utf-8"))
+    def __init__(self, routes):
+        from baize import asgi, wsgi
+        self.routes = routes
+        self.rec = Recorder()
+        rec = self.rec
+
+        def wsgi_endpoint(i):
+            def app(environ, start_response):
+                rec.hit = (i, environ.get("PATH_PARAMS"), wsgi.Request(environ).path_params)
+                start_response("200 OK", [("X-Route", str(i))])
+                return [b"ok"]
+            return app
+
+        def asgi_endpoint(i):
+            async def app(scope, receive, send):
+                rec.hit = (i, scope.get("path_params"), asgi.Request(scope, receive, send).path_params)
+                await send({"type": "http.response.start", "status": 200, "headers": []})
+                await send({"type": "http.response.body", "body": b"ok"})
+            return app
+        self.wsgi = wsgi.Router(*[(r, wsgi_endpoint(i)) for i, r in enumerate(routes)])
+        self.asgi = asgi.Router(*[(r, asgi_endpoint(i)) for i, r in enumerate(routes)])
+
+
+def dispatch_wsgi(table, path, stale=False, root=""):
+    table.rec.hit = None
+    req = drivers.Req(path=path.encode("utf-8"), root=root.encode("utf-8"))
     env = drivers.to_environ(req)
     if stale:  # e.g. left behind by an outer router
         env["PATH_PARAMS"] = {"stale": "outer"}
-    res = drivers.run_wsgi(router, env)
-    return drivers.wsgi_text(env["PATH_INFO"]), rec.hit, res.code, res.exc
+    res = drivers.run_wsgi(table.wsgi, env)
+    return drivers.wsgi_text(env["PATH_INFO"]), table.rec.hit, res.code, res.exc
 
 
-def dispatch_asgi(routes, path, stale=False):
-    from baize import asgi
-    rec = Recorder()
-
-    def endpoint(i):
-        async def app(scope, receive, send):
-            rec.hit = (i, scope.get("path_params"), asgi.Request(scope, receive, send).path_params)
-            await send({"type": "http.response.start", "status": 200, "headers": []})
-            await send({"type": "http.response.body", "body": b"ok"})
-        return app
-    router = asgi.Router(*[(r, endpoint(i)) for i, r in enumerate(routes)])
-    scope = drivers.to_scope(drivers.Req(path=path.encode("utf-8")))
+def dispatch_asgi(table, path, stale=False, root=""):
+    table.rec.hit = None
+    scope = drivers.to_scope(drivers.Req(path=path.encode("utf-8"), root=root.encode("utf-8")))
     if stale:
         scope["path_params"] = {"stale": "outer"}
-    res = drivers.run_asgi(router, scope)
-    return scope["path"], rec.hit, res.status, res.exc
+    res = drivers.run_asgi(table.asgi, scope)
+    return scope["path"], table.rec.hit, res.status, res.exc
 
 
 def types_in(route):
@@ -262,35 +271,48 @@ REGRESSION = [
 ]
 
 
-def run_pair(ctx, routes, path, stale=False):
-    case = {"routes": routes, "path": path, "stale_params": stale}
+def run_pair(ctx, table, path, stale=False, root=""):
+    routes = table.routes
+    case = {"routes": routes, "path": path, "stale_params": stale, "root_path": root}
     nt = False
     for iface, fn in (("wsgi", dispatch_wsgi), ("asgi", dispatch_asgi)):
-        try:
-            seen, hit, status, exc = fn(routes, path, stale)
-        except (re.error, ValueError, KeyError, IndexError) as e:
-            # table construction failed: not a dispatch question
-            ctx.count(f"table-rejected-{type(e).__name__}")
-            return False
+        seen, hit, status, exc = fn(table, path, stale, root)
         ctx.mon(f"{iface}-dispatch")
         nt = judge(ctx, iface, routes, seen, hit, status, exc, dict(case, iface=iface)) or nt
     return nt
+
+
+def make(ctx, routes):
+    try:
+        return Table(routes)
+    except (re.error, ValueError, KeyError, IndexError) as e:
+        ctx.count(f"table-rejected-{type(e).__name__}")  # table construction failed: not a dispatch question
+        return None
 
 
 def run(ctx):
     rng = ctx.rng("c08")
     if ctx.shard == 0:
         for routes, path in REGRESSION:
-            run_pair(ctx, routes, path)
+            t = make(ctx, routes)
+            if t:
+                run_pair(ctx, t, path)
             ctx.case((tuple(routes), path))
         ctx.sample("regression-seed", {"routes": REGRESSION[6][0], "path": REGRESSION[6][1]})
     ntables = ctx.scale(5000, 120_000)
     for i in range(ntables):
         routes = make_table(rng)
-        for path in paths_for(rng, routes, 12):
-            stale = rng.random() < 0.25
-            nt = run_pair(ctx, routes, path, stale)
-            ctx.case((tuple(routes), path, stale) if nt and len(routes) >= 1 else None)
+        table = make(ctx, routes)
+        if table is None:
+            continue
+        paths = paths_for(rng, routes, 12)
+        # the same long-lived router serves the paths in one order and then in the reverse order (answers must not depend on history)
+        for rnd, seq in enumerate((paths, list(reversed(paths))[:6])):
+            for path in seq:
+                stale = rng.random() < 0.25
+                root = rng.choice(["", "", "", "/" + path.split("/")[1] if path.count("/") >= 1 and path.split("/")[1] else "/v1", "/a", "/1"])
+                nt = run_pair(ctx, table, path, stale, root)
+                ctx.case((tuple(routes), path, stale, root, rnd) if nt and len(routes) >= 1 else None)
         if i < 3:
             ctx.sample("table+path", {"routes": routes, "path": path, "model": repr(M.first_match(routes, path))})
     # convertor round trip on generated values of each language
@@ -314,7 +336,9 @@ def run(ctx):
 
 def replay(ctx, case):
     if "routes" in case:
-        run_pair(ctx, case["routes"], case["path"], case.get("stale_params", False))
+        t = make(ctx, case["routes"])
+        if t:
+            run_pair(ctx, t, case["path"], case.get("stale_params", False), case.get("root_path", ""))
     else:
         from baize.routing import CONVERTOR_TYPES
         v = CONVERTOR_TYPES[case["type"]].to_python(case["text"])
